@@ -24,6 +24,7 @@ class C14(TieCheck):
     pid = "C14"
     area = "C14"
     props = "Props_C14.v"
+    gentie = "C14"
     harness = "c14"
     extra_trust = [
         "model: coq/C14/Model.v transliterates recorder (response_writer.go:81-288) and String/Blob/Stream/Redirect (context.go:295-327); coq/C14/ModelFixed.v = the same with proposed_fixes/C14_readfrom.patch; spec: coq/C14/Spec.v",
